@@ -74,6 +74,20 @@ pub fn check_step(ctx: &mut Ctx, s: &Step) -> Result<(), Violation> {
             BoardStatus::Stalemate => Status::Stalemate,
             BoardStatus::Checkmate => Status::Checkmate,
         };
+        // the same successor through the in-place entry point
+        let nb2 = crate::bridge::make_in_place(b, crate::bridge::mv(m), &nb);
+        let ngot2 = match nb2.status() {
+            BoardStatus::Ongoing => Status::Ongoing,
+            BoardStatus::Stalemate => Status::Stalemate,
+            BoardStatus::Checkmate => Status::Checkmate,
+        };
+        if ngot2 != nwant {
+            ctx.fail(
+                &format!("status:{:?}-reported-as-{:?}", nwant, ngot2),
+                format!("after {} (in-place make_move): status() = {:?}; rules: in check = {}, legal moves = {} => {:?}", m.uci(), ngot2, nchk, nl.len(), nwant),
+                s.case_with(json!({"then": m.uci(), "entry_point": "make_move"})),
+            )?;
+        }
         if nwant != Status::Ongoing {
             ctx.class(if nwant == Status::Checkmate { "successor:checkmate" } else { "successor:stalemate" });
             ctx.nontrivial(fp(&np));
@@ -228,7 +242,7 @@ pub fn run(cfg: &Cfg) -> i32 {
     engine::finish(
         report,
         EvidenceSpec {
-            rule: "cases = positions: complete enumeration of K+X v K (X in Q,R,B,N,P; either colour; either side to move), six four-man classes (KQvKR, KRvKR, KBNvK, KPvKP, KQvKP, KNNvK: every 97th placement in quick, all in thorough), curated mates/stalemates and their neighbours, planted positions in which an en-passant capture lands diagonally next to the enemy king amid crowded pieces, planted low-mobility positions (king boxed in by enemy attacks plus one movable feature: an en-passant capture that is free / pinned along the capture diagonal / pinned off it / in the rank pattern / the only evasion of the pushed pawn's check, a seventh-rank pawn, a pinned piece, or nothing), and every position of long generated histories (capture-seeking, special-move-seeking and uniform policies, up to 120 plies). at every position the status of every successor reached through make_move_new is judged as well (one ply of look-ahead). evaluations = positions + successors. Non-trivial = terminal position, or in check with exactly one legal reply; distinct = position fingerprints.".into(),
+            rule: "cases = positions: complete enumeration of K+X v K (X in Q,R,B,N,P; either colour; either side to move), six four-man classes (KQvKR, KRvKR, KBNvK, KPvKP, KQvKP, KNNvK: every 97th placement in quick, all in thorough), curated mates/stalemates and their neighbours, planted positions in which an en-passant capture lands diagonally next to the enemy king amid crowded pieces, planted low-mobility positions (king boxed in by enemy attacks plus one movable feature: an en-passant capture that is free / pinned along the capture diagonal / pinned off it / in the rank pattern / the only evasion of the pushed pawn's check, a seventh-rank pawn, a pinned piece, or nothing), and every position of long generated histories (capture-seeking, special-move-seeking and uniform policies, up to 120 plies). at every position the status of every successor reached through make_move_new and through the in-place make_move is judged as well (one ply of look-ahead). evaluations = positions + successors. Non-trivial = terminal position, or in check with exactly one legal reply; distinct = position fingerprints.".into(),
             assumptions: vec!["reference in_check and legal_moves".into()],
             trusted_base: vec!["harness/src/refmodel.rs".into(), "proptest 1.11".into()],
             exhaustive: None,
